@@ -2,8 +2,7 @@
    array of 5 words, taken from the source by the translator) equals the textbook compression
    function, by a per-round simulation; then the streaming theorems by instantiating MD32Proofs. *)
 From Coq Require Import Arith NArith ZArith List Lia ZifyNat ZifyN.
-From LCP Require Import Alg.Words Alg.WordsProofs Alg.MDSpec Alg.MDModel Alg.MDStreaming
-     Alg.MD32Model Alg.MD32Proofs Alg.Sha1Spec Alg.Sha1Model.
+From LCP Require Import Alg.Words Alg.WordsProofs Alg.MDSpec Alg.MDModel Alg.MDStreaming Alg.MD32Model Alg.MD32Proofs Alg.Sha1Spec Alg.Sha1Model.
 Import ListNotations.
 Local Open Scope N_scope.
 Ltac Zify.zify_post_hook ::= Z.to_euclidean_division_equations.
